@@ -255,6 +255,27 @@ func concRunOne(ri int, run *concRun, spin bool) (*concRunOut, error) {
 	return out, nil
 }
 
+// sameLogged: a log entry and an executed command denote the same write (command name, key, and the id / second name).
+func sameLogged(cmd, entry []string) bool {
+	if len(cmd) == 0 || len(entry) == 0 || !strings.EqualFold(cmd[0], entry[0]) {
+		return false
+	}
+	n := 3
+	switch strings.ToLower(cmd[0]) {
+	case "drop", "flushdb", "delhook", "delchan", "pdelhook", "pdelchan":
+		n = 2
+	}
+	for j := 1; j < n; j++ {
+		if j >= len(cmd) || j >= len(entry) {
+			return len(cmd) == len(entry)
+		}
+		if cmd[j] != entry[j] {
+			return false
+		}
+	}
+	return true
+}
+
 // concRecord runs concurrent client programs against real servers and records, in the
 // order in which the server lock was held, every command and script call.
 func concRecord(args []string) int {
@@ -463,10 +484,10 @@ func concVerify(args []string) int {
 		} else {
 			for i := range logged {
 				a, b := logged[i], o.AOF[i]
-				same := len(a) == len(b) && strings.EqualFold(a[0], b[0])
-				for j := 1; same && j < len(a); j++ {
-					same = a[j] == b[j]
-				}
+				// the ORDER of the log is the property; an entry may spell its command differently from what the client
+				// sent (name in another case, an option that does not change the effect dropped): same command name, same
+				// key and id.  What the entries DO when replayed is C03's subject (restart equivalence).
+				same := sameLogged(a, b)
 				if !same {
 					add(0, "logorder", fmt.Sprintf("log entry %d is %q, the %d-th logged command in lock order is %q", i, b, i, a))
 					break
